@@ -82,7 +82,9 @@ const (
 	DecName
 	DecTotal
 	DecCurrent
-	DecNil // no decorator at all: a nil entry, or a conditional constructor whose condition is false
+	DecNil          // no decorator at all: a nil entry, or a conditional constructor whose condition is false
+	DecLibEwmaSpeed // decor.EwmaSpeed(unit, fmt, age): the library's own moving average (age = DecSpec.Age)
+	DecLibEwmaETA   // decor.EwmaETA(style, age)
 )
 
 // Wrapper kinds.
@@ -237,6 +239,7 @@ type Scenario struct {
 	Faults  []Fault       `json:"faults,omitempty"`
 	NoWait  bool          `json:"no_wait,omitempty"`
 	Serial  int           `json:"serial,omitempty"` // C16: run the program this many times in sequence (0/1: once)
+	Steady  []int64       `json:"steady,omitempty"` // C20 steady-rate scenarios: [items per sample, ns per item]
 	Sched   SchedSpec     `json:"sched"`
 	// cancel injection (C14): a canceller goroutine acts at scheduling step InjectAt
 	InjectAt   int64 `json:"inject_at,omitempty"`
